@@ -171,7 +171,7 @@ def main():
                'baseline_off_cmd': 'cd /repo && cargo test --workspace --no-fail-fast --offline',
                'source_commits': list(reversed(hooks)), 'add_only': True},
      'engines': [
-       {'name': 'M', 'path': 'lib/mir.py lib/histcheck.py lib/framecheck.py', 'serves_properties': ['C01', 'C03', 'C04', 'C07', 'C10', 'C11', 'C12', 'C13', 'C17', 'C19', 'C20'], 'kind_free_text': 'nightly MIR of the current tree -> path-enumerating symbolic interpreter -> z3 (strings/integers)'},
+       {'name': 'M', 'path': 'lib/mir.py lib/histcheck.py lib/framecheck.py', 'serves_properties': ['C01', 'C03', 'C04', 'C07', 'C10', 'C11', 'C12', 'C13', 'C17', 'C18', 'C19', 'C20'], 'kind_free_text': 'nightly MIR of the current tree -> path-enumerating symbolic interpreter -> z3 (strings/integers)'},
        {'name': 'P', 'path': 'lib/tables.py lib/lrdriver.py lib/pengine.py lib/refgrammar.py', 'serves_properties': ['C03', 'C14'], 'kind_free_text': 'LALR tables extracted from the generated parser of the current tree; model of the lalrpop_util driver incl. error recovery; path-forking symbolic execution; z3 CYK of a reference grammar'},
        {'name': 'T', 'path': 'lib/tmir.py lib/travcheck.py lib/resolvecheck.py lib/nonint.py', 'serves_properties': ['C05', 'C06', 'C08', 'C09', 'C13', 'C15', 'C16'], 'kind_free_text': 'event-trace symbolic executor for the traversal MIR (closures, slice iterators, ControlFlow) with inductive summaries for recursive walkers'},
        {'name': 'K', 'path': 'kani/ lib/kani.py lib/ksupport.py', 'serves_properties': ['C01', 'C04', 'C05', 'C07', 'C08', 'C10', 'C16', 'C18'], 'kind_free_text': 'Kani 0.68 / CBMC proof harnesses over the real crate (path dependency, hooks enabled)'},
